@@ -234,7 +234,7 @@ StatsModelFails(r, m) ==
     LET mm == mem[m] IN
     (IF ~Has(r, "klen") \/ PairsSet(r.klen) = ModelHist(DOMAIN mm, TrKLen) THEN {} ELSE {"C17.keylen"})
     \cup (IF ~Has(r, "vlen") \/ PairsSet(r.vlen) = ModelValHist(mm) THEN {} ELSE {"C17.vallen"})
-    \cup (IF ~Has(r, "filling") \/ ~(m \in DOMAIN meta) THEN {} ELSE
+    \cup (IF ~Has(r, "filling") \/ ~(m \in DOMAIN meta) \/ meta[m].n <= 0 THEN {} ELSE
           LET nb == Cardinality({TrKH[k] % meta[m].n : k \in DOMAIN mm}) IN
           IF r.filling = <<nb, (nb * 1000) \div meta[m].n>> THEN {} ELSE {"C17.filling"})
 
@@ -424,9 +424,9 @@ Proc(e) ==
                          \* binding of AbyScan: when the design state is tracked, the ORDER in which the real iterator
                          \* yields is the one the transcribed bitmap scan predicts (a mismatch is design drift only:
                          \* the property does not constrain the order)
-                         \* (tables above 2^17 buckets excepted: the literal scan of the default table's 16 Mi buckets
+                         \* (tables above 4096 buckets excepted: the literal scan of the default table's 16 Mi buckets
                          \*  takes TLC longer than every other event of a history together)
-                         !.drift = IF tracked /\ e.outcome = "ok" /\ ~e.overrun /\ st[m].n <= 131072
+                         !.drift = IF tracked /\ e.outcome = "ok" /\ ~e.overrun /\ st[m].n <= 4096
                                    THEN LET it == Iterate(st[m])
                                             pred == CASE e.flavour = "keys"   -> [i \in 1..Len(it.items) |-> <<it.items[i][1], 0>>]
                                                       [] e.flavour = "values" -> [i \in 1..Len(it.items) |-> <<0, it.items[i][2]>>]
@@ -523,7 +523,8 @@ Proc(e) ==
                 pred == Get0(st, m, NoneS)
                 \* the decoder's native monitor mirrors the formulas: both must agree on whether the
                 \* state is structurally sound at all (a disagreement is a tool error, never a verdict)
-                nf == IF Has(e, "native") THEN
+                \* (with an unreadable header the formulas stop at C12.header, the monitor goes on: nothing to compare)
+                nf == IF Has(e, "native") /\ "C12.header" \notin sf THEN
                          IF (Len(e.native.fails) = 0) = ({x \in sf : x \notin {"C05.content", "C12.header", "C12.placement", "C07.n"}} = {})
                          THEN {} ELSE {"TOOL.native_disagrees"}
                       ELSE {}
@@ -536,7 +537,8 @@ Proc(e) ==
                                       ELSE IF wf /\ FreeOKD(S, D) /\ ~PadOKD(S, D) THEN "bytes behind a record are not zero"
                                       ELSE IF ~(ClassSizesOK(S.kf) /\ ClassSizesOK(S.vf)) THEN "a slot size is not one of the design's class values"
                                       ELSE "",
-                            !.meta = IF m \in DOMAIN meta THEN Set(meta, m, [meta[m] EXCEPT !.n = S.n]) ELSE meta,
+                            \* (an image whose header is unreadable says nothing about the bucket count)
+                            !.meta = IF m \in DOMAIN meta /\ S.n > 0 THEN Set(meta, m, [meta[m] EXCEPT !.n = S.n]) ELSE meta,
                             \* the design layer is advanced only from a sound state (its operators are partial on
                             \* corrupt structures); an unsound logged state stops the prediction until the next one
                             !.st = Set(st, m, IF sf \ {"C05.content", "C07.n"} = {} THEN S ELSE NoneS), !.last = Set(last, m, S),
